@@ -522,8 +522,9 @@ fn run_history<T: Payload>(cap: &str, flavor: &str, labels: &[String], out: &mut
         w.senders.remove(&h);
         w.receivers.remove(&h);
     }
-    let mut drops: Vec<String> = take_drops().iter().map(|t| tagstr(*t)).collect();
-    drops.sort();
+    let mut dl = take_drops();
+    dl.sort();
+    let drops: Vec<String> = dl.iter().map(|t| tagstr(*t)).collect();
     take_wakes();
     writeln!(out, "T d={}", list(drops.into_iter())).unwrap();
 }
